@@ -76,6 +76,10 @@ type stats struct {
 	nearValue, directEntry, mixedEnc, extremeTS, pathOrigin, readdLive                               bool
 	bigDeleteWithSurvivor                                                                            bool
 	heldDeleteLeaves                                                                                 int
+	// feeder styles (feeder.go): what the caller re-used or overwrote after a call
+	feederStyle                                                                 string
+	updListReused, delListReused, structReused, prefixRewritten, keyMapReused   bool
+	elemArena, listsScribbled, spareWritten, refusedScribbled, refillOverStored bool
 }
 
 func (s *stats) labels() []string {
@@ -90,6 +94,19 @@ func (s *stats) labels() []string {
 		}
 	}
 	add(s.heldDeleteLeaves > 1, "several-delete-handles-re-read-after-the-call")
+	add(s.feederStyle == feedFresh, "feeder:fresh-objects-for-every-notification")
+	add(s.feederStyle == feedBatch, "feeder:batch-buffers-re-used")
+	add(s.feederStyle == feedScribble, "feeder:everything-re-used-and-scribbled")
+	add(s.updListReused, "update-list-built-over-the-previous-batch(same-backing-array)")
+	add(s.refillOverStored, "update-list-slots-of-still-stored-leaves-overwritten")
+	add(s.delListReused, "delete-list-built-over-the-previous-batch(same-backing-array)")
+	add(s.structReused, "notification-struct-re-used-for-the-next-call")
+	add(s.prefixRewritten, "prefix-object-rewritten-in-place-for-the-next-call")
+	add(s.keyMapReused, "key-map-re-used-for-another-path")
+	add(s.elemArena, "element-arrays-of-prefix-and-delete-paths-in-one-backing-array")
+	add(s.listsScribbled, "lists-paths-prefix-struct-overwritten-right-after-the-call")
+	add(s.spareWritten, "spare-capacity-of-a-submitted-list-written-after-the-call")
+	add(s.refusedScribbled, "messages-of-a-refused-notification-overwritten-in-place")
 	add(s.staleOnExisting, "update-at-or-below-stored-ts")
 	add(s.equalTSReplace, "same-ts-different-value-replaces")
 	add(s.deleteMatched, "delete-matched-leaf")
@@ -172,6 +189,8 @@ type world struct {
 	atomics []*pb.Notification
 	log     []concreteOp // what was actually submitted, for the multi==singles rerun
 	direct  bool         // the current step uses the exported methods of *cache.Target
+	feeders map[string]*feeder    // caller-side containers re-used between notifications (feeder.go)
+	gen     map[proto.Message]int // how often the feeder itself rewrote a message it owns
 }
 
 // concreteOp is one executed step with every state-dependent choice resolved.
@@ -182,6 +201,10 @@ type concreteOp struct {
 	n     *pb.Notification // clone taken before the call
 	orig  *pb.Notification // the object that was handed to the cache (the caller keeps it)
 	msg   string
+	// feeder styles: whole = the feeder has not re-used anything of orig, it must equal n; otherwise the parts
+	// (prefix, updates, delete paths) the feeder has not rewritten since must equal their clones
+	whole, touchable bool
+	parts            []part
 }
 
 type failure struct {
@@ -222,6 +245,7 @@ func newWorld(sc *Scenario, props map[string]bool) *world {
 	w := &world{sc: sc, clock: 1_000_000, replay: map[string]*pb.Notification{}, model: map[string]*mtarget{},
 		pool: map[string]*pb.Path{}, poolLen: map[string]int{}, check: props}
 	w.st.sawConnErr = map[string]bool{}
+	w.st.feederStyle = sc.Feeder
 	cache.Now = func() time.Time { return cache.T(w.clock) }
 	var opts []cache.Option
 	if sc.Threshold > 0 {
@@ -395,7 +419,14 @@ func (w *world) compareAll(step int) {
 		}
 		// C02: data leaves == model (path, timestamp, value)
 		data := 0
-		for k, n := range got {
+		// (sorted: the first difference reported is the same in every run of a scenario, which shrinking relies on)
+		gotKeys := make([]string, 0, len(got))
+		for k := range got {
+			gotKeys = append(gotKeys, k)
+		}
+		sort.Strings(gotKeys)
+		for _, k := range gotKeys {
+			n := got[k]
 			full := gn.Key(append([]string{name}, gn.Unkey(k)...))
 			seenReplay[full] = true
 			// C03 (1): replay == query
@@ -419,6 +450,21 @@ func (w *world) compareAll(step int) {
 			if n.GetTimestamp() != ml.ts {
 				w.fail("C02", "step %d: %s/%q stored timestamp %d, model %d", step, name, gn.Unkey(k), n.GetTimestamp(), ml.ts)
 			}
+			// what the leaf holds is an update FOR THIS LEAF: prefix and path of the stored notification name the
+			// target and the position it is returned at (not judged when an origin travels in the update's path,
+			// DESIGN.md 10.7 (7))
+			if !w.st.pathOrigin {
+				var addr []string
+				switch {
+				case n.GetAtomic():
+					addr = gn.RefIndex(n.GetPrefix(), true)
+				case len(n.Update) == 1 && n.Update[0] != nil:
+					addr = updKey(n, n.Update[0])
+				}
+				if addr != nil && gn.Key(addr) != full {
+					w.fail("C02", "step %d: the notification stored at %s/%q is addressed to %q: the leaf holds an update that was not sent for it", step, name, gn.Unkey(k), addr)
+				}
+			}
 			if !sameStored(n, ml.n) {
 				w.fail("C02", "step %d: %s/%q stored %v, model %v", step, name, gn.Unkey(k), n, ml.n)
 				w.failMulti("step %d: %s/%q stored %v, but %v when the entries of the notification are applied one at a time", step, name, gn.Unkey(k), n, ml.n)
@@ -438,7 +484,8 @@ func (w *world) compareAll(step int) {
 				}
 			}
 		}
-		for k, ml := range m.leaves {
+		for _, k := range m.sortedKeys() {
+			ml := m.leaves[k]
 			if _, ok := got[k]; !ok {
 				w.fail("C02", "step %d: model holds %s/%q (ts %d) but the cache does not", step, name, gn.Unkey(k), ml.ts)
 				w.failMulti("step %d: %s/%q (ts %d) is not stored, but it is when the entries of the notification are applied one at a time", step, name, gn.Unkey(k), ml.ts)
@@ -460,7 +507,12 @@ func (w *world) compareAll(step int) {
 			w.fail("C15", "step %d: %s targetLeavesAdded-targetLeavesDeleted=%d-%d but targetLeaves=%d", step, name, ac, dc, lc)
 		}
 	}
+	replayKeys := make([]string, 0, len(w.replay))
 	for k := range w.replay {
+		replayKeys = append(replayKeys, k)
+	}
+	sort.Strings(replayKeys)
+	for _, k := range replayKeys {
 		if !seenReplay[k] {
 			w.fail("C03", "step %d: feed replay holds %q which the cache does not return (delete not announced, or a ghost)", step, gn.Unkey(k))
 		}
@@ -878,6 +930,7 @@ func (w *world) stepNoti(i int, name string, spec *Noti) {
 	m := w.model[name]
 	n := w.build(name, spec)
 	n.Timestamp = w.timestamp(name, spec, n)
+	n = w.pour(name, n) // feeder style: the same content in the caller's re-used containers
 	clone := proto.Clone(n).(*pb.Notification)
 	if n.Atomic && len(n.Update) > 0 && len(n.Delete) == 0 {
 		w.atomics = append(w.atomics, clone)
@@ -903,6 +956,7 @@ func (w *world) stepNoti(i int, name string, spec *Noti) {
 	feedFrom := len(w.feed)
 
 	w.log = append(w.log, concreteOp{kind: "noti", name: name, clock: w.clock, n: clone, orig: n})
+	w.hold(&w.log[len(w.log)-1], n, clone)
 	var err error
 	if tg := w.c.GetTarget(name); w.direct && tg != nil {
 		// the exported per-target entry point (what Cache.GnmiUpdate dispatches to)
@@ -919,12 +973,11 @@ func (w *world) stepNoti(i int, name string, spec *Noti) {
 	// ... and so is every notification handed over in an earlier call (the cache may keep the caller's
 	// object; it must not write to it later either). Notifications that share prefix/path objects with
 	// this one are compared as well: they alias by design of the scenario, the cache must not care.
-	for j := len(w.log) - 2; j >= 0 && j >= len(w.log)-40; j-- {
-		if op := w.log[j]; op.orig != nil && !proto.Equal(op.orig, op.n) {
-			w.fail("C03", "step %d: a notification submitted in an earlier call was modified afterwards: it was %v and now reads %v", i, op.n, op.orig)
-		}
-	}
+	// With a feeder that re-uses its containers the comparison follows the feeder (checkCallerOwned).
+	w.checkCallerOwned(i)
 	w.checkSpare(i)
+	// a scribbling feeder overwrites what it still owns now, before anything is read back from the cache
+	w.afterCall(name, n, err)
 	// C14: nothing stored or reported for another target changed
 	if after := w.snapshotOthers(name); fmt.Sprint(after) != fmt.Sprint(others) {
 		for t, v := range after {
@@ -1421,6 +1474,7 @@ func (w *world) run() (err error) {
 				break
 			}
 			w.stepNoti(i, name, s.N)
+			w.noteScribbled(name)
 		case "reset":
 			if !live {
 				w.c.Reset(name)
